@@ -111,6 +111,9 @@ func record(seed int64, traces, n int, out string) {
 				p := safely(func() { err = tr.Delete(k) })
 				w.Emit("Delete", M{"k": keyJSON(k)}, M{"err": errFlag(err, p)}, M{})
 			case r < 76:
+				if rng.Intn(3) == 0 {
+					k = mutateKey(rng, k) // mostly keys that were never written
+				}
 				v, e := get(tr, k)
 				if e != "" {
 					v = -2
